@@ -144,6 +144,56 @@ def _history_worker(hs):
     return out
 
 
+def redefinition_histories(ctx):
+    hs = [
+        [("def g9(x) abs(x)", None), ("g9(-3)", "3"), ("def abs(x) 100", None), ("g9(-3)", "100"), ("abs = fn(x) 200", None), ("g9(-3)", "200"), ("abs(-3)", "200")],
+        [("def h9(a, b) a + b * 2", None), ("h9(1, 2)", "5"), ("def mul(a, b) 10", None), ("h9(1, 2)", "11"), ("def add(a, b) 42", None), ("h9(1, 2)", "42"), ("1 + 1", "42")],
+        [("def g9(x) abs(x)", None), ("g9(-3)", "3"), ("def abs(x) 7; error 'late'", "ERR"), ("g9(-3)", "7"), ("g9(-3)", "7")],
+        [("def k9() later9", None), ("k9()", "ERR"), ("def later9 = 5", None), ("k9()", "5"), ("later9 = 6", None), ("k9()", "6"), ("def later9 = 'x'", None), ("k9()", "'x'")],
+        [("def m9 = fn(l) length(l) + 1", None), ("m9([1, 2])", "3"), ("m9([1, 2])", "3"), ("def length(l) 10", None), ("m9([1, 2])", "11"), ("[m9([]) for i in range(2)]", "[11, 11]")],
+        [("def o9 = <*go = fn(self, x) sign(x)*>", None), ("o9->go(-5)", "-1"), ("def sign(x) 'redefined'", None), ("o9->go(-5)", "'redefined'")],
+        [("def c9(l) [abs(x) for x in l]", None), ("c9([-1, -2])", "[1, 2]"), ("def abs(x) 0", None), ("c9([-1, -2])", "[0, 0]")],
+    ]
+    for legacy in (True, False):
+        for h in hs:
+            s_ = session.ImplSession(legacy=legacy) if legacy else session.ImplSession()
+            if not legacy:
+                s_.run("require Math import [abs, sign]")
+            try:
+                for k, (src, want) in enumerate(h):
+                    out, _, _ = s_.run(src)
+                    got = "ERR" if out[0] in ('rt', 'syn') else (str(out[1]) if out[0] == 'val' else str(out))
+                    ctx.seen(("redef", legacy, tuple(x[0] for x in h[:k + 1])), nontrivial=True)
+                    ctx.count("redefinition_history_calls")
+                    if want is None:
+                        continue
+                    shown = "ERR" if out[0] in ('rt', 'syn') else None
+                    if shown is None:
+                        o2, _, _ = s_.run("string(" + src + ")") if False else (out, None, None)
+                        shown = render_dump(out[1])
+                    if shown != want:
+                        ctx.violation("oracle", f"call {k} `{src}` gives {shown}, after the earlier calls {[x[0] for x in h[:k]]} it is {want} (legacy={legacy})",
+                                      {"op": "history", "commands": [x[0] for x in h[:k + 1]]})
+                        break
+            finally:
+                s_.close()
+
+
+def render_dump(d):
+    """text of a dumped result value (ints, strings, lists of them)"""
+    if d[0] == 'i':
+        return str(d[1])
+    if d[0] == 's':
+        return "'" + d[1] + "'"
+    if d[0] == 'l':
+        return "[" + ", ".join(render_dump(x) for x in d[1]) + "]"
+    if d[0] == 'b':
+        return "TRUE" if d[1] else "FALSE"
+    if d[0] == 'null':
+        return "NULL"
+    return str(d)
+
+
 def private_module_dirs(ctx):
     import itertools
     import shutil
@@ -236,6 +286,10 @@ def run(ctx):
             if alone != mine:
                 ctx.violation("oracle", f"interpreter {w} behaves differently when interleaved with another instance: {mine} vs alone {alone}",
                               {"op": "interleaved", "commands": [COMMANDS[c][0] for c in h], "who": who})
+    # (3b) a definition or assignment made by a LATER call is what earlier-defined functions see from then on (names are looked up when the
+    # function runs, in the scope chain it was created in): library names, operators, and session names, re-defined between two calls of
+    # the same function, also by a call that then fails
+    redefinition_histories(ctx)
     # (4) instances with their OWN module directories: a module name means, in each instance, the file on that instance's path — whatever
     # another instance in the same process has already loaded under that name (different content, or no such module at all)
     private_module_dirs(ctx)
